@@ -222,6 +222,11 @@ theorem non_timestamps :
     (∀ kvs, Time.valueToTimestamp (.obj kvs) = none) :=
   ⟨rfl, fun _ => rfl, fun _ => rfl, fun _ => rfl⟩
 
+/-- An unparsed value (`ldvalue.Raw`, type `RawType`) is not a timestamp either — even when its text
+is a valid RFC 3339 string or a number: `ValueToTimestamp` and `parseDateTime` both switch on
+`Type()`.  (Contrast the string, numeric and semVer operators, which parse it: C04.) -/
+theorem raw_not_timestamp (w : J) : Time.valueToTimestamp (.raw w) = none := rfl
+
 /-- If the context value is not a timestamp, before/after are false (any clause). -/
 theorem non_timestamp_context (rx : RegexOracle) (c : Clause) (u cv : J) (i : Nat)
     (hop : c.op = "before" ∨ c.op = "after") (h : Time.valueToTimestamp u = none) :
@@ -256,6 +261,19 @@ theorem non_timestamps_never_match (rx : RegexOracle) (c : Clause) (u cv : J) (i
   rcases h with h | h
   · exact non_timestamp_context rx c u cv i hop h
   · exact non_timestamp_clause rx c u cv i hpre hop (by rw [hv, Option.bind_some, h])
+
+/-- A raw operand on either side never matches before/after (plain or preprocessed clause). -/
+theorem raw_context_never_matches (rx : RegexOracle) (c : Clause) (w cv : J) (i : Nat)
+    (hop : c.op = "before" ∨ c.op = "after") : doOp rx c (.raw w) cv i = false :=
+  non_timestamp_context rx c _ cv i hop (raw_not_timestamp w)
+
+theorem raw_clause_never_matches (rx : RegexOracle) (c : Clause) (u w : J) (i : Nat)
+    (hop : c.op = "before" ∨ c.op = "after") (hv : c.values[i]? = some (.raw w)) :
+    doOp rx { c with pre := {} } u (.raw w) i = false ∧ doOp rx (pre rx c) u (.raw w) i = false :=
+  ⟨non_timestamp_clause rx { c with pre := {} } u _ i rfl hop (by
+      show (c.values[i]?).bind Time.valueToTimestamp = none
+      rw [hv]; rfl),
+   non_timestamp_clause_preprocessed rx c u _ i hop (by rw [hv]; rfl)⟩
 
 /-- Every truncation of a valid timestamp string is rejected (wherever the cut falls). -/
 theorem truncated_never_match (s : Stamp) (h : s.Valid) (k : Nat) (hk : k < s.render.length)
@@ -385,6 +403,9 @@ end LD.C18
 #print axioms LD.C18.string_number_interchangeable_clause
 #print axioms LD.C18.non_timestamps
 #print axioms LD.C18.non_timestamps_never_match
+#print axioms LD.C18.raw_not_timestamp
+#print axioms LD.C18.raw_context_never_matches
+#print axioms LD.C18.raw_clause_never_matches
 #print axioms LD.C18.non_timestamp_clause_preprocessed
 #print axioms LD.C18.truncated_never_match
 #print axioms LD.C18.calendar
